@@ -170,16 +170,27 @@ Definition reader_ok (C : cls) (c : cmd) : bool :=
   | None => false
   end.
 
+Definition guard_ok (C : cls) (M g : list attr) : bool :=
+  match g with [] => false | _ => true end &&
+  forallb (fun a => mem a M && negb (mem a (ctor_attrs C))) g.
+
+(** a class with a fit: predict starts with check_is_fitted on attributes
+    that only fit sets, then is read-only.  A class without fit (CheckerBoard):
+    predict is a read-only function of the parameters *)
 Definition predict_ok (C : cls) : bool :=
-  match predict C, fit_sets C with
-  | None, _ => true
-  | Some (Seq (Guard g) body), Some (D, M) =>
-      match g with [] => false | _ => true end &&
-      forallb (fun a => mem a M && negb (mem a (ctor_attrs C))) g && reader_ok C body
-  | Some (Guard g), Some (D, M) =>
-      match g with [] => false | _ => true end &&
-      forallb (fun a => mem a M && negb (mem a (ctor_attrs C))) g
-  | _, _ => false
+  match predict C with
+  | None => true
+  | Some p =>
+      match fit C, fit_sets C with
+      | None, _ => reader_ok C p
+      | Some _, Some (D, M) =>
+          match p with
+          | Seq (Guard g) body => guard_ok C M g && reader_ok C body
+          | Guard g => guard_ok C M g
+          | _ => false
+          end
+      | _, _ => false
+      end
   end.
 
 Definition analyse (C : cls) : bool :=
